@@ -75,6 +75,12 @@ def gen_tasks(tier, seed, kind="lae"):
                                   "kwargs": {"k": kk, "weight_type": "int", "path_length_ranges": [[0, 3], [4, 50]], "path_length_factors": [fac, 1]}})
                 tasks.append({**base, "edges": arb, "plf": {"ranges": [[0, 3], [4, 50]], "factors": [1, 2]},
                               "kwargs": {"k": kk, "weight_type": "int", "path_length_ranges": [[0, 3], [4, 50]], "path_length_factors": [1, 2]}})
+    # one walk that must cross a cycle edge exactly W times, W a power of two and the largest weight (exact optimum 0):
+    # exercises the bit decomposition of traversal count x weight at its boundary; handed out first ("cost")
+    for W in ((2, 4) if tier == "quick" else (2, 3, 4, 8)):
+        for wt in ("int", "float"):
+            tasks.append({"name": f"two_cycle_W{W}", "cls": cls_c, "cyc": True, "starts": [], "ends": [], "ignored": [], "scaling": None, "node_mode": False, "allow_empty": False, "kind": kind,
+                          "cost": 10 ** 6, "edges": [("s", "a", 1), ("a", "b", W), ("b", "a", W - 1), ("b", "t", 1)], "kwargs": {"k": 1, "weight_type": wt}})
     for name, es in I.digraphs(tier, rng, quick_n=8, thorough_n=80):
         G = nx.DiGraph(es)
         arbw = I.arbitrary_weights(es, rng, (0, 1, 2, 3))
